@@ -136,6 +136,12 @@ func genStream(rng *simrt.Rand, u *gen.Universe, target string, n int, jsonVals 
 				v.S = fmt.Sprintf(`{"v":%d}`, v.I)
 			case "ll":
 				v.L = []string{fmt.Sprintf("e%d", v.I), "z"}
+				if rng.Chance(0.6) {
+					// lists that grow and shrink at the end: successive values of a
+					// leaf are prefixes of one another
+					all := []string{"p", "q", "r", "s"}
+					v.L = append([]string(nil), all[:rng.Intn(5)]...)
+				}
 			}
 			return v
 		}
